@@ -1754,6 +1754,9 @@ def prepend_package(builderT:Type[ISystemBuilder], package:str) -> Type[ISystemB
             for m in package.split('.'):
                 prependedpackage = system.Package(
                     system, m, prependedpackage)
+                # There is no source to analyse for this package: an import of one of 
+                # its modules must not try to process it first.
+                prependedpackage.state = ProcessingState.PROCESSED
                 system.addObject(prependedpackage)
         
         def addModule(self, path: Path, parent_name: Optional[str] = None, ) -> None:
